@@ -162,10 +162,19 @@ RECURSIVE SatN(_, _, _), SepN(_, _, _), RowSepN(_, _, _)
 SatN(rows, T, nd) == IF nd <= 1 THEN Sat1(rows, T) ELSE [ g \in DOMAIN T |-> SatN(rows, T[g], nd - 1) ]
 SepN(rows, T, nd) == IF nd <= 1 THEN Sep1(rows, T) ELSE [ g \in DOMAIN T |-> SepN(rows, T[g], nd - 1) ]
 RowSepN(rows, T, nd) == IF nd <= 1 THEN RowSep1(rows, T) ELSE IF nd = 2 THEN RowSep2(rows, T) ELSE [ g \in DOMAIN T |-> RowSepN(rows, T[g], nd - 1) ]
+\* the shape of the answers: that of the points without the last axis (per point), resp. with the last two axes replaced by one entry per
+\* row (per row and group); an answer of another shape fails by its shape (values of different shapes cannot be compared)
+PerPointShape(ps) == SubSeq(ps, 1, Len(ps) - 1)
+PerRowShape(ps, nrows) == IF Len(ps) <= 2 THEN <<nrows>> ELSE SubSeq(ps, 1, Len(ps) - 2) \o <<nrows>>
 EvClassify(e) ==
-  LET rows == e.rows IN
-  PFail("sat_value", e.sat = SatN(rows, e.points, e.ndim)) \cup PFail("sep_value", e.sep = SepN(rows, e.points, e.ndim))
-  \cup PFail("rowsep_value", e.rowsep = RowSepN(rows, e.points, e.ndim))
+  LET rows == e.rows
+      shaped == "shapes" \in DOMAIN e
+      okSat == ~shaped \/ e.shapes.sat = PerPointShape(e.pshape)
+      okSep == ~shaped \/ e.shapes.sep = PerPointShape(e.pshape)
+      okRow == ~shaped \/ e.shapes.rowsep = PerRowShape(e.pshape, Len(rows))
+  IN (IF okSat THEN PFail("sat_value", e.sat = SatN(rows, e.points, e.ndim)) ELSE {"sat_value"})
+     \cup (IF okSep THEN PFail("sep_value", e.sep = SepN(rows, e.points, e.ndim)) ELSE {"sep_value"})
+     \cup (IF okRow THEN PFail("rowsep_value", e.rowsep = RowSepN(rows, e.points, e.ndim)) ELSE {"rowsep_value"})
 
 (* ---- C20: id / position bridges ------------------------------------------------------ *)
 \* vars : Seq([id, lo, hi]); d : id -> value pairs; default kind: "lower" (integer dtype), "nan" (float dtype), "fn" (callable, value given per id)
@@ -234,9 +243,9 @@ PStepV(s, cur) ==
             [] s.call = "red_rows" -> PFail("ph_red_rows", implied)
             [] s.call = "red_cols" -> PFail("ph_red_cols", forced)
             [] s.call = "rr_and_c" -> PFail("ph_red_cols", forced) \cup PFail("ph_red_rows", impliedRel)
-            [] s.call = "sat" -> PFail("ph_sat", s.res = SatN(rows, s.points, s.ndim))
-            [] s.call = "sep" -> PFail("ph_sep", s.res = SepN(rows, s.points, s.ndim))
-            [] s.call = "rowsep" -> PFail("ph_rowsep", s.res = RowSepN(rows, s.points, s.ndim))
+            [] s.call = "sat" -> IF s.rshape = PerPointShape(s.pshape) THEN PFail("ph_sat", s.res = SatN(rows, s.points, s.ndim)) ELSE {"ph_sat"}
+            [] s.call = "sep" -> IF s.rshape = PerPointShape(s.pshape) THEN PFail("ph_sep", s.res = SepN(rows, s.points, s.ndim)) ELSE {"ph_sep"}
+            [] s.call = "rowsep" -> IF s.rshape = PerRowShape(s.pshape, Len(rows)) THEN PFail("ph_rowsep", s.res = RowSepN(rows, s.points, s.ndim)) ELSE {"ph_rowsep"}
             [] s.call = "idx" -> PFail("ph_idx", /\ { s.res.b[i] : i \in DOMAIN s.res.b } = BoolIdx(s.vars) /\ Len(s.res.b) = Cardinality(BoolIdx(s.vars))
                                                  /\ { s.res.i[i] : i \in DOMAIN s.res.i } = IntIdx(s.vars) /\ Len(s.res.i) = Cardinality(IntIdx(s.vars))
                                                  /\ Tail(s.vars) = cols)
